@@ -79,6 +79,40 @@ pub fn generate(em: &mut Emitter, seed: u64, thorough: bool) {
             n_exh += 1;
         }
     }
+    // (1b) exhaustive patterns over {PUSH, ADD, NOOP}: explicit NOOPs inside and at the end of groups
+    //      (a group made of NOOPs only, a NOOP after a trailing PUSH, NOOP-only spans)
+    let l3 = if thorough { 10 } else { 8 };
+    for len in 1..=l3 {
+        for code in 0..3u32.pow(len as u32) {
+            let mut c = code;
+            let ops: Vec<Operation> = (0..len)
+                .map(|i| {
+                    let d = c % 3;
+                    c /= 3;
+                    match d {
+                        0 => Operation::Add,
+                        1 => Operation::Noop,
+                        _ => Operation::Push(Felt::new(2000 + i as u64)),
+                    }
+                })
+                .collect();
+            batch_case(em, ops);
+            n_exh += 1;
+        }
+    }
+    // NOOP tails after k operations around the group / batch boundaries
+    for k in [0usize, 1, 7, 8, 9, 10, 17, 18, 26, 27, 62, 63, 64, 70, 71, 72, 73] {
+        for tail in 1..=(if thorough { 20 } else { 11 }) {
+            for with_push in [false, true] {
+                let mut ops: Vec<Operation> = (0..k).map(|i| if with_push && i + 1 == k { Operation::Push(Felt::new(7)) } else { Operation::Swap }).collect();
+                ops.extend(std::iter::repeat(Operation::Noop).take(tail));
+                if !ops.is_empty() {
+                    batch_case(em, ops);
+                    n_exh += 1;
+                }
+            }
+        }
+    }
     em.stat("exhaustive_push_patterns_up_to_len", l);
     em.stat("exhaustive_cases", n_exh);
     // (2) long patterns around the batch boundaries: spans of k ops with pushes at the
